@@ -153,7 +153,8 @@ func (g *GTPv1U) SerializeTo(b gopacket.SerializeBuffer, opts gopacket.Serialize
 		return err
 	}
 	data[0] = (g.Version << 5)
-	data[0] |= (1 << 4)
+	data[0] |= (g.ProtocolType & 0x01) << 4
+	data[0] |= (g.Reserved & 0x01) << 3
 	if g.ExtensionHeaderFlag {
 		data[0] |= 0x04
 	}
